@@ -85,7 +85,31 @@ func VerifH_C15_SelectiveDag() {
 	payload := vPayload(vHeaderV1(root), want)
 
 	var out bytes.Buffer
-	if vChoose("api", 2) == 0 {
+	api := vChoose("api", 3)
+	if api == 2 {
+		// TraverseToFile writes a placeholder header, the payload, and then the final header
+		path := vFSPath("sel.car")
+		err := TraverseToFile(context.Background(), &ls, root, sel, path, opts...)
+		vAssert("traverse-to-file-ok", err == nil)
+		file, ok := vFSReadFile(path)
+		vAssert("file-written", ok && len(file) >= 51)
+		var h Header
+		_, herr := h.ReadFrom(bytes.NewReader(file[11:51]))
+		vAssert("file-announced-size-is-payload-size", herr == nil && h.DataOffset == 51 && h.DataSize == uint64(len(payload)))
+		vAssert("file-payload-is-visited-blocks-once-in-order", uint64(len(file)) >= 51+h.DataSize && vBytesEq(file[51:51+h.DataSize], payload))
+		if noIndex {
+			vAssert("file-no-index", h.IndexOffset == 0 && len(file) == 51+len(payload))
+		}
+		rd, rerr := NewReader(bytes.NewReader(file))
+		vAssert("file-reader-opens", rerr == nil)
+		if rerr == nil {
+			_, ierr := rd.Inspect(true)
+			vAssert("file-inspect-accepts", ierr == nil)
+		}
+		vCover("to-file-without-index", noIndex)
+		return
+	}
+	if api == 0 {
 		wr, err := NewSelectiveWriter(context.Background(), &ls, root, sel, opts...)
 		vAssert("first-pass-ok", err == nil)
 		n, err := wr.WriteTo(&out)
